@@ -27,7 +27,8 @@ def dict_keys_list(B, st, d) -> VList:
     dk = st.dkeys()
     ref = z3.Select(dk, d.ref)
     l = VList(ref, d.kt)
-    B.eng.assume_wf(st, l, dk, d.ref)
+    B.eng.assume_wf(st, l, dk, d.ref, keys=True)
+    st.assume(z3.And(E.IS_KEYS(ref), E.KEYS_OWNER(ref) == d.ref))
     return l
 
 
@@ -94,7 +95,8 @@ def new_dict(B, st, kt, vt) -> VDict:
     eng = B.eng
     ref = st.new_ref("dict")
     d = VDict(ref, kt, vt)
-    keys = eng.new_list(st, kt, z3.IntVal(0))
+    keys = eng.new_list(st, kt, z3.IntVal(0), keys=True)
+    st.assume(E.KEYS_OWNER(keys.ref) == ref)
     st.heap[("DKEYS",)] = E.SStore(st.dkeys(), ref, keys.ref)
     hm = st.dhas(_ks(d))
     st.heap[("DHAS", sort_name(_ks(d)))] = E.SStore(hm, ref, z3.K(_ks(d), z3.BoolVal(False)))
